@@ -272,15 +272,20 @@ def check_against_rfc(case, result):
 # ======================================================================================================
 
 def canon_log(log, wsdrv):
+    """the octets written are ONE stream: frames are parsed across write() calls (chopped / queued writes put a frame on
+    the wire in pieces), each frame is reported at the write that completes it"""
     ev = []
+    buf = b""
     for e in log:
         k = e[0]
         if k == "write":
-            data = bytes.fromhex(e[1])
+            buf += bytes.fromhex(e[1])
             try:
-                frames, rest = wsdrv.parse_frames(data)
+                frames, buf = wsdrv.parse_frames(buf)
             except ValueError:
-                frames, rest = [], data
+                frames = []
+                ev.append(["sendraw", buf.hex()[:64]])
+                buf = b""
             for f in frames:
                 if f["opcode"] == 10 and f["fin"] and f["rsv"] == 0:
                     ev.append(["sendpong", f["payload"].hex()])
@@ -290,8 +295,6 @@ def canon_log(log, wsdrv):
                                p[2:].hex() if len(p) > 2 else None])
                 else:
                     ev.append(["sendframe", f["opcode"], f["fin"], f["rsv"], f["length"]])
-            if rest:
-                ev.append(["sendraw", rest.hex()[:64]])
         elif k in ("msg",):
             ev.append(["msg", e[1], bool(e[2])])
         elif k in ("ping", "pong"):
@@ -306,6 +309,8 @@ def canon_log(log, wsdrv):
             ev.append(["raised", e[1]])
         elif k == "close":
             pass
+    if buf:
+        ev.append(["sendraw", buf.hex()[:64]])
     return ev
 
 
@@ -426,19 +431,42 @@ def make_conn(fw, case):
         from autobahn.websocket.compress import (PerMessageDeflateOffer, PerMessageDeflateOfferAccept,
                                                  PerMessageDeflateResponse, PerMessageDeflateResponseAccept)
         mx = case.get("pmc_max")
+        # negotiated parameters (RFC 7692 section 7.1): {"server_nct", "client_nct": bool, "server_mwb", "client_mwb": 0 | 9..15}
+        pp = dict(dict(server_nct=False, client_nct=False, server_mwb=0, client_mwb=0), **(case.get("pmc_params") or {}))
         if role == "server":
+            # the peer (client) offers everything; we accept with the parameters of the case
             def accept(offers):
                 for o in offers:
                     if isinstance(o, PerMessageDeflateOffer):
-                        return PerMessageDeflateOfferAccept(o, max_message_size=mx)
+                        return PerMessageDeflateOfferAccept(o, request_no_context_takeover=pp["client_nct"],
+                                                            request_max_window_bits=pp["client_mwb"],
+                                                            no_context_takeover=pp["server_nct"] or None,
+                                                            window_bits=pp["server_mwb"] or None, max_message_size=mx)
             opts["perMessageCompressionAccept"] = accept
+            hdr = "permessage-deflate; client_max_window_bits"
+            if pp["server_nct"]:
+                hdr += "; server_no_context_takeover"
+            if pp["server_mwb"]:
+                hdr += "; server_max_window_bits=%d" % pp["server_mwb"]
         else:
             def accept(response):
                 if isinstance(response, PerMessageDeflateResponse):
                     return PerMessageDeflateResponseAccept(response, max_message_size=mx)
-            opts["perMessageCompressionOffers"] = [PerMessageDeflateOffer()]
+            opts["perMessageCompressionOffers"] = [PerMessageDeflateOffer(accept_no_context_takeover=True, accept_max_window_bits=True,
+                                                                          request_no_context_takeover=pp["server_nct"],
+                                                                          request_max_window_bits=pp["server_mwb"])]
             opts["perMessageCompressionAccept"] = accept
-        extra = b"Sec-WebSocket-Extensions: permessage-deflate\r\n"
+            # the peer's (server's) response carries the parameters of the case
+            hdr = "permessage-deflate"
+            if pp["client_nct"]:
+                hdr += "; client_no_context_takeover"
+            if pp["server_nct"]:
+                hdr += "; server_no_context_takeover"
+            if pp["client_mwb"]:
+                hdr += "; client_max_window_bits=%d" % pp["client_mwb"]
+            if pp["server_mwb"]:
+                hdr += "; server_max_window_bits=%d" % pp["server_mwb"]
+        extra = b"Sec-WebSocket-Extensions: " + hdr.encode() + b"\r\n"
     style = case.get("config_style")
     if style in ("each", "each-rev"):
         # one setProtocolOptions() call per option, in the order written above or reversed
@@ -452,6 +480,12 @@ def make_conn(fw, case):
     conn.config_mismatch = {k: [v, getattr(conn.proto, k, "<missing>")] for k, v in opts.items()
                             if isinstance(v, (bool, int)) and getattr(conn.proto, k, "<missing>") != v}
     assert (conn.proto._perMessageCompress is not None) == bool(case["pmc"]), "compression negotiation failed"
+    if case["pmc"] and case.get("pmc_params"):
+        z = conn.proto._perMessageCompress
+        got = dict(server_nct=bool(z.server_no_context_takeover), client_nct=bool(z.client_no_context_takeover),
+                   server_mwb=z.server_max_window_bits, client_mwb=z.client_max_window_bits)
+        want = dict(pp, server_mwb=pp["server_mwb"] or 15, client_mwb=pp["client_mwb"] or 15)
+        assert got == want, "negotiated %r, wanted %r" % (got, want)
     if case["closing"]:
         conn.call("sendClose", 1000)
         assert conn.state() == "CLOSING"
@@ -593,65 +627,137 @@ def run_sends(wsdrv, conn, ops):
     return {"ops": out, "peer": peer, "peer_error": err}
 
 
+class Run:
+    """one connection of a case: opened (handshake done, options set, optional pending writes), fed, finished"""
+    def __init__(self, fw, case):
+        self.case = case
+        self.wsdrv, self.conn = make_conn(fw, case)
+        conn = self.conn
+        self.env = env_for(fw)[1]
+        self.n_pre = len(conn.log)
+        pw = case.get("pending_writes")
+        self.pending = 0
+        if pw:
+            # the application has writes in the queue for synchronous / chopped sending (protocol.py sendData / _send): the
+            # first goes out at once, the others wait for the reactor
+            for i in range(pw["count"]):
+                payload = bytes((i + 65,)) * pw["size"]
+                if pw["mode"] == "sync":
+                    conn.call("sendMessage", payload, True, sync=True)
+                else:
+                    conn.call("sendFrame", 2, payload, chopsize=pw.get("chop", 3))
+            self.pending = pw["count"]
+        self.n0 = len(conn.log)
+        self.tape = []
+        pmce = conn.proto._perMessageCompress
+        if pmce is not None:
+            orig = pmce.decompress_message_data
+
+            def rec(data, _orig=orig):
+                out = _orig(data)
+                self.tape.append(bytes(out).hex())
+                return out
+            pmce.decompress_message_data = rec
+
+    def drain(self):
+        """the reactor gets its turns: the write queue (one entry per turn, _QUEUED_WRITE_DELAY apart) drains"""
+        for _ in range(400):
+            if not len(self.conn.proto.send_queue) and not self.conn.proto.triggered:
+                break
+            self.env.advance(0.001)
+
+    def finish(self):
+        case, conn, wsdrv, n0 = self.case, self.conn, self.wsdrv, self.n0
+        if case.get("pending_writes"):
+            self.drain()
+        retained = retained_octets(conn.proto) if case.get("observe_retained") else None
+        if "send" in case:
+            conn.call("sendMessage", b"x" * case["send"]["len"], bool(case["send"]["binary"]))
+        ev = canon_log(conn.log[self.n_pre:], wsdrv)      # from before the queued writes: the octets written are one stream
+        pending_written = None
+        if case.get("pending_writes"):
+            # the application's own queued data frames are not the receiver's reaction: taken out of the event list and
+            # reported on their own (how many complete ones reached the wire, and whether any came after our close frame)
+            size = case["pending_writes"]["size"]
+            closed, nw, after = False, 0, 0
+            keep = []
+            for e in ev:
+                if e[0] == "sendclose":
+                    closed = True
+                if e[0] == "sendframe" and e[1] == 2 and e[4] == size:
+                    nw += 1
+                    after += closed
+                else:
+                    keep.append(e)
+            ev = keep
+            pending_written = {"written": nw, "after_close": after, "queued": self.pending}
+        # application hooks (frame-based / streaming receive API) called after WE ended the conversation: after the first
+        # close frame written or the transport dropped
+        hooks_after, ended = [], False
+        for e in conn.log[n0:]:
+            if e[0] in ("lose", "abort"):
+                ended = True
+            elif e[0] == "write" and not ended:
+                try:
+                    ended = any(f["opcode"] == 8 for f in wsdrv.parse_frames(bytes.fromhex(e[1]))[0])
+                except ValueError:
+                    pass
+            elif e[0] == "hook" and ended:
+                hooks_after.append([e[1], e[2]])
+        sends = run_sends(wsdrv, conn, case["sends"]) if "sends" in case else None
+        state = conn.state()
+        close = None
+        if not case.get("nolost"):
+            n1 = len(conn.log)
+            conn.lost(clean=True)
+            for e in conn.log[n1:]:
+                if e[0] == "close":
+                    close = [e[1], e[2], e[3] if e[3] is None or e[1] else "-"]
+                elif e[0] == "escaped":
+                    ev.append(["escaped", e[1]])
+        res = {"events": ev, "state": state, "close": close, "tape": self.tape}
+        if retained is not None:
+            res["retained"] = retained
+        if sends is not None:
+            res["sends"] = sends
+        if conn.config_mismatch:
+            res["config_mismatch"] = conn.config_mismatch
+        if hooks_after:
+            res["hooks_after_failure"] = hooks_after
+        if pending_written is not None:
+            res["pending_written"] = pending_written
+        return res
+
+
 def run_case(fw, case):
     if "config_calls" in case:
         return run_config(fw, case)
-    wsdrv, conn = make_conn(fw, case)
-    n0 = len(conn.log)
-    tape = []
-    pmce = conn.proto._perMessageCompress
-    if pmce is not None:
-        orig = pmce.decompress_message_data
-
-        def rec(data, _orig=orig):
-            out = _orig(data)
-            tape.append(bytes(out).hex())
-            return out
-        pmce.decompress_message_data = rec
+    if "xconn" in case:
+        return run_xconn(fw, case)
+    r = Run(fw, case)
     chunks = [bytes.fromhex(c) for c in case["chunks"]]
     if case.get("burst"):
-        conn.feed_burst(chunks)        # asyncio: all data_received() calls first, then ONE loop turn
+        r.conn.feed_burst(chunks)        # asyncio: all data_received() calls first, then ONE loop turn
     else:
         for c in chunks:
-            conn.feed(c)
-    retained = retained_octets(conn.proto) if case.get("observe_retained") else None
-    if "send" in case:
-        conn.call("sendMessage", b"x" * case["send"]["len"], bool(case["send"]["binary"]))
-    ev = canon_log(conn.log[n0:], wsdrv)
-    # application hooks (frame-based / streaming receive API) called after WE ended the conversation: after the first
-    # close frame written or the transport dropped
-    hooks_after, ended = [], False
-    for e in conn.log[n0:]:
-        if e[0] in ("lose", "abort"):
-            ended = True
-        elif e[0] == "write" and not ended:
-            try:
-                ended = any(f["opcode"] == 8 for f in wsdrv.parse_frames(bytes.fromhex(e[1]))[0])
-            except ValueError:
-                pass
-        elif e[0] == "hook" and ended:
-            hooks_after.append([e[1], e[2]])
-    sends = run_sends(wsdrv, conn, case["sends"]) if "sends" in case else None
-    state = conn.state()
-    close = None
-    if not case.get("nolost"):
-        n1 = len(conn.log)
-        conn.lost(clean=True)
-        for e in conn.log[n1:]:
-            if e[0] == "close":
-                close = [e[1], e[2], e[3] if e[3] is None or e[1] else "-"]
-            elif e[0] == "escaped":
-                ev.append(["escaped", e[1]])
-    res = {"events": ev, "state": state, "close": close, "tape": tape}
-    if retained is not None:
-        res["retained"] = retained
-    if sends is not None:
-        res["sends"] = sends
-    if conn.config_mismatch:
-        res["config_mismatch"] = conn.config_mismatch
-    if hooks_after:
-        res["hooks_after_failure"] = hooks_after
-    return res
+            r.conn.feed(c)
+            if case.get("pending_writes"):
+                r.drain()
+    return r.finish()
+
+
+def run_xconn(fw, case):
+    """several connections in ONE process (one reactor / event loop, one set of classes): case["xconn"] = the
+    connections' cases (their "chunks" are the reads of each), case["schedule"] = the order in which the reads happen, as
+    connection indices.  Result: one ordinary result per connection."""
+    runs = [Run(fw, c) for c in case["xconn"]]
+    nxt = [0] * len(runs)
+    for i in case["schedule"]:
+        c = runs[i].case["chunks"][nxt[i]]
+        nxt[i] += 1
+        runs[i].conn.feed(bytes.fromhex(c))
+    assert all(n == len(r.case["chunks"]) for n, r in zip(nxt, runs)), "schedule does not cover all reads"
+    return {"xconn": [r.finish() for r in runs]}
 
 
 # ---------- header sweep ----------
